@@ -109,7 +109,7 @@ Callbacks ==
     \/ ObsHandlerStart(g)
     \/ PanicHandler(g)
     \/ /\ InvAt(g, "hdone") /\ ObsHandlerDone(g, Top(g).panicked)
-    \/ StoreClose(g)
+    \/ \E ok \in BOOLEAN : StoreClose(g, ok)
     \/ PubRet(g)
     \/ /\ stack[g] # <<>> /\ Top(g).k = "op" /\ Top(g).pc = "ret" /\ OpRet(g, Top(g).res)
 
